@@ -16,6 +16,7 @@
    hence source_moment_slot_linear: the translated _accumulate of order k is linear in each of its k rewards, on any demography. *)
 Require Import Reals Psatz QArith Qreals.
 From mathcomp Require Import all_ssreflect all_algebra.
+From mathcomp Require Import zify.
 From PG Require Import model.StateSpace model.Rewards proofs.RewardProofs gen.NpState gen.RewardsGen proofs.GenRewardsEquiv.
 From PG Require Import analysis.Rstruct analysis.RSums analysis.MExp analysis.MExpLaws.
 From PG Require Import base.Ops base.OpsR base.Perm model.Matrix model.Loop model.PhaseType.
@@ -409,6 +410,81 @@ rewrite /GRing.add /GRing.mul /=; ring.
 Qed.
 End Src.
 
+(* any family of rewards whose values sum, state by state, to the value of a total reward *)
+Lemma family_vectors_sum (nn nl : nat) (rtot : reward) (I : seq nat) (rl : nat -> reward) (sts : seq state) :
+  reward_ok nn rtot = true -> all (fun l => reward_ok nn (rl l)) I ->
+  List.Forall (fun s => n_loci s = nl) sts ->
+  List.Forall (fun s => List.fold_right Rplus 0 (List.map (fun l => reward_get OpsR nn (rl l) s) I) = reward_get OpsR nn rtot s) sts ->
+  vsum (size sts) [seq [seq gen_reward_get OpsR nn nl (rl l) s | s <- sts] | l <- I]
+  = [seq gen_reward_get OpsR nn nl rtot s | s <- sts].
+Proof.
+move=> rok rlok Hnl Hsum.
+have E1 : [seq gen_reward_get OpsR nn nl rtot s | s <- sts] = [seq reward_get OpsR nn rtot s | s <- sts].
+  by have := gen_reward_vector_eq_R nn nl rtot sts rok Hnl; rewrite /reward_vector !L_map.
+have E2 l : l \in I -> [seq gen_reward_get OpsR nn nl (rl l) s | s <- sts] = [seq reward_get OpsR nn (rl l) s | s <- sts].
+  by move=> /(allP rlok) ok; have := gen_reward_vector_eq_R nn nl _ sts ok Hnl; rewrite /reward_vector !L_map.
+have -> : [seq [seq gen_reward_get OpsR nn nl (rl l) s | s <- sts] | l <- I] = [seq [seq reward_get OpsR nn (rl l) s | s <- sts] | l <- I].
+  by apply/eq_in_map => l; exact: E2.
+rewrite E1 vsum_pointwise.
+by elim: Hsum => [|s sts' Hs _ IH] //=; congr (_ :: _).
+Qed.
+
+Section SrcFamily.
+Variable expm : seq (seq R) -> seq (seq R).
+Hypothesis expm_sound : forall n A, wf n n A -> wf n n (expm A) /\ mx_of n n (expm A) = mexp (mx_of n n A).
+Variables (regf : seq (seq R) -> R) (n : nat) (Ss : seq (Q * seq (seq R))) (Slast : seq (seq R)) (alpha : seq R) (ts : seq Q).
+Hypothesis H0 : regf (List.hd (None, Slast) (all_epochs Ss Slast)).2 <> 0.
+Hypothesis H1 : List.Forall (fun x : Q * seq (seq R) => wf n n x.2) Ss.
+Hypothesis H2 : wf n n Slast.
+Hypothesis H5 : epochs_wf (seq (seq R)) 0%QQ Ss.
+Hypothesis H6 : List.Forall (fun t => (0 <= t)%QQ) ts.
+Let A := acc1 expm regf Ss Slast alpha ts.
+
+Theorem source_family_means_sum (nn nl : nat) (rtot : reward) (I : seq nat) (rl : nat -> reward) (sts : seq state) :
+  size sts = n -> reward_ok nn rtot = true -> all (fun l => reward_ok nn (rl l)) I ->
+  List.Forall (fun s => n_loci s = nl) sts ->
+  List.Forall (fun s => List.fold_right Rplus 0 (List.map (fun l => reward_get OpsR nn (rl l) s) I) = reward_get OpsR nn rtot s) sts ->
+  A [seq gen_reward_get OpsR nn nl rtot s | s <- sts]
+  = vsum (size ts) [seq A [seq gen_reward_get OpsR nn nl (rl l) s | s <- sts] | l <- I].
+Proof.
+move=> ssz rok rlok Hnl Hsum.
+rewrite /A -(family_vectors_sum rok rlok Hnl Hsum) ssz.
+rewrite (@source_first_moment_sum expm expm_sound regf n Ss Slast alpha ts H0 H1 H2 H5 H6) -?map_comp //.
+by apply/allP => x /mapP [l _ ->]; rewrite size_map ssz.
+Qed.
+
+(* property C02 / C13: for any reward r0 (the unit reward: the spectrum itself; a deme reward: its per-population marginals) the
+   expected (un)folded spectrum of r0 sums to the expected r0-weighted total branch length, on any demography *)
+Theorem source_expected_sfs_sums_to_branch_length (nn : nat) (r0 : reward) (sts : seq state) :
+  size sts = n -> (2 <= nn)%coq_nat -> reward_ok nn r0 = true -> List.Forall (fun s => bc_inv nn s) sts ->
+  A [seq gen_reward_get OpsR nn 1 (RProduct [:: r0; RTotalBranchLength]) s | s <- sts]
+  = vsum (size ts) [seq A [seq gen_reward_get OpsR nn 1 (RProduct [:: r0; RUnfoldedSFS i]) s | s <- sts] | i <- iota 1 (nn - 1)].
+Proof.
+move=> ssz n2 r0ok Hinv; apply: source_family_means_sum => //.
+- by rewrite /= r0ok.
+- by apply/allP => i; rewrite mem_iota => /andP [i1 _]; rewrite /= r0ok /=; case: i i1.
+- by elim: Hinv => [|s l [h _] _ IH]; constructor.
+- by elim: Hinv => [|s l h _ IH]; constructor => //; exact: sfs_family_decompose.
+Qed.
+
+Theorem source_expected_folded_sfs_sums_to_branch_length (nn : nat) (r0 : reward) (sts : seq state) :
+  size sts = n -> (2 <= nn)%coq_nat -> reward_ok nn r0 = true -> List.Forall (fun s => bc_inv nn s) sts ->
+  A [seq gen_reward_get OpsR nn 1 (RProduct [:: r0; RTotalBranchLength]) s | s <- sts]
+  = vsum (size ts) [seq A [seq gen_reward_get OpsR nn 1 (RProduct [:: r0; RFoldedSFS i]) s | s <- sts] | i <- iota 1 (Nat.div nn 2)].
+Proof.
+move=> ssz n2 r0ok Hinv; apply: source_family_means_sum => //.
+- by rewrite /= r0ok.
+- apply/allP => i; rewrite mem_iota => /andP [i1 i2]; rewrite /= r0ok /= andbT.
+  apply/andP; split; first by case: i i1 {i2}.
+  apply/Nat.ltb_lt.
+  have h : (Nat.div nn 2 < nn)%coq_nat by apply: Nat.div_lt; lia.
+  move/ltP: i2; lia.
+- by elim: Hinv => [|s l [h _] _ IH]; constructor.
+- by elim: Hinv => [|s l h _ IH]; constructor => //; exact: folded_sfs_family_decompose.
+Qed.
+End SrcFamily.
+
+
 Print Assumptions evalM_ur_linear.
 Print Assumptions source_first_moment_linear.
 Print Assumptions source_first_moment_sum.
@@ -418,3 +494,6 @@ Print Assumptions source_locus_height_means_sum.
 Print Assumptions evalM_scale_slot.
 Print Assumptions evalM_additive_slot.
 Print Assumptions source_moment_slot_linear.
+Print Assumptions source_family_means_sum.
+Print Assumptions source_expected_sfs_sums_to_branch_length.
+Print Assumptions source_expected_folded_sfs_sums_to_branch_length.
